@@ -16,6 +16,7 @@ package transport
 
 import (
 	"context"
+	"io"
 	"reflect"
 	"sync"
 
@@ -35,15 +36,20 @@ type MessageTransporter interface {
 	DispatchWithType(m msg.Message, msgType, laneKey string) bool
 }
 
-func NewMessageTransporter(sendCh chan msg.Message) MessageTransporter {
+// NewMessageTransporter creates a transporter that sends through sendCh. doneCh is closed when nobody
+// takes messages out of sendCh any more (the dispatcher of the session has ended): Send then returns
+// an error instead of blocking. A nil doneCh means sendCh is always served.
+func NewMessageTransporter(sendCh chan msg.Message, doneCh <-chan struct{}) MessageTransporter {
 	return &transporterImpl{
 		sendCh:   sendCh,
+		doneCh:   doneCh,
 		registry: make(map[string]map[string]chan msg.Message),
 	}
 }
 
 type transporterImpl struct {
 	sendCh chan msg.Message
+	doneCh <-chan struct{}
 
 	// First key is message type and second key is lane key.
 	// Dispatch will dispatch message to related channel by its message type
@@ -53,9 +59,18 @@ type transporterImpl struct {
 }
 
 func (impl *transporterImpl) Send(m msg.Message) error {
-	return errors.PanicToError(func() {
-		impl.sendCh <- m
-	})
+	var err error
+	if panicErr := errors.PanicToError(func() {
+		select {
+		case impl.sendCh <- m:
+		case <-impl.doneCh:
+			// the session's dispatcher has ended, the queue is not drained any more
+			err = io.EOF
+		}
+	}); panicErr != nil {
+		return panicErr
+	}
+	return err
 }
 
 func (impl *transporterImpl) Do(ctx context.Context, req msg.Message, laneKey, recvMsgType string) (msg.Message, error) {
